@@ -164,6 +164,16 @@ def mkCon {V} : CmpVal → Option V → Except Err (Con V)
   | .of _, none => .error .ValueError
   | .pyNone, _ => .error .ValueError
 
+/-- `RangeClass(constraints=xs)`: `VersionRange.__attrs_post_init__` sorts the constraints -/
+def mkRangeOfList {V} (o : VOps V) (xs : List (Con V)) : Except Err (List (Con V)) := sortCons o xs
+
+/-- `RangeClass(constraints=xs)` where `xs` may hold `None` (the inverse of a star constraint): sorting compares
+`None` with a constraint and raises `TypeError`.  (A one-element list `[None]` would sort; it cannot be
+represented here and is answered `TypeError` as well: the agreement theorem shows the case does not arise,
+`VersionRange.invert` returns before it for the star range.) -/
+def mkRangeOfOpts {V} (o : VOps V) (xs : List (Option (Con V))) : Except Err (List (Con V)) :=
+  if xs.all Option.isSome then sortCons o (xs.filterMap id) else .error .TypeError
+
 /-- `itertools.pairwise` -/
 def pairwise {α} : List α → List (α × α) := Univers.pairwise
 
